@@ -38,7 +38,7 @@ Section OmSession.
   Variable cfg : N * N.
   Definition om_process (S : list entry) (now ns : N) (m : message) :=
     process_message om_ops (fst cfg) (snd cfg) (fun _ => MISSING)
-      (fun _ e _ => match validate_entry MAXF now ns (mkW e true) false with None => true | Some _ => false end) S m.
+      (fun _ e st => validate_empty EHASH e && match validate_entry MAXF now ns (mkW e (sig_bit_ok st)) false with None => true | Some _ => false end) S m.
   Fixpoint om_session (fuel : nat) (now ns : N) (SA SB : list entry) (m : message) (turn_b : bool)
            (acc : list message) : option (list entry * list entry * list message) :=
     match fuel with
